@@ -72,6 +72,8 @@ def bounds(tier):
     if tier == "quick":
         return {"A_max_len": 4, "A_names_per_space": 2,
                 "A_len5_6": "none",
+                "A_rules": "only with delta evaluation, <= 5 rule sets per "
+                           "contracted subset",
                 "B_models": [[2, 2]], "B_max_class": "doubles"}
     return {"A_max_len": 4, "A_names_per_space": 3,
             "A_len5_6": "length 5 and balanced length 6 (<= 1 general operator) "
@@ -119,7 +121,11 @@ def _groupings(n):
     return res
 
 
+_TIER = ["quick"]
+
+
 def generate(tier):
+    _TIER[0] = tier
     cases = []
     if tier == "quick":
         mx = {"o": 2, "v": 2, "g": 2}
@@ -358,7 +364,15 @@ def _run_word(case):
                     # ---- rules on the coefficient tensor
                     if not C or res == 0 or reduced:
                         continue
-                    for rs in _rule_sets_a(C):
+                    rule_sets = _rule_sets_a(C)
+                    if _TIER[0] == "quick":
+                        # quick tier: rules only together with delta
+                        # evaluation and at most four rule sets
+                        if not delta:
+                            continue
+                        if len(rule_sets) > 5:
+                            rule_sets = rule_sets[:3] + rule_sets[-2:]
+                    for rs in rule_sets:
                         if rs is None:
                             continue
                         forb = {"c": list(rs)}
